@@ -429,10 +429,10 @@ var $methodSet = typ => {
         var mset = [];
 
         current.forEach(e => {
-            if (seen[e.typ.string]) {
+            if (seen[e.typ.id]) {
                 return;
             }
-            seen[e.typ.string] = true;
+            seen[e.typ.id] = true;
 
             if (e.typ.named) {
                 mset = mset.concat(e.typ.methods);
